@@ -52,6 +52,9 @@ class Recorder:
             name = comp_name or computation.name
             for kind in ("start", "on_message", "pause"):
                 setattr(computation, kind, rec.wrap(agent.name, name, kind, getattr(computation, kind)))
+            # a computation only posts from within its callbacks: a post from another thread means some of its code runs there
+            if hasattr(computation, "post_msg"):
+                setattr(computation, "post_msg", rec.wrap(agent.name, name, "post_msg", getattr(computation, "post_msg")))
             # the message handlers themselves too (a handler called directly, not through on_message, is still a callback of the
             # computation): the handler table of the instance, and the management computation's _orchestrator_* commands, which
             # on_message looks up by name
@@ -92,7 +95,8 @@ class Recorder:
             self._orig["subc"], self._orig["suba"], self._orig["subr"]
 
 
-def threaded_solve(dcop, algo_def, cg, dist, infinity=10000, timeout=20, switch=1e-5, replication=None, watchdog=45, scenario=None):
+def threaded_solve(dcop, algo_def, cg, dist, infinity=10000, timeout=20, switch=1e-5, replication=None, watchdog=45, scenario=None,
+                   delay=None, collect_moment="value_change", period=None):
     """-> (orchestrator, Recorder, error text); the whole run is abandoned (error text "hung") after `watchdog` seconds"""
     from pydcop.infrastructure.run import run_local_thread_dcop
     rec = Recorder()
@@ -103,7 +107,8 @@ def threaded_solve(dcop, algo_def, cg, dist, infinity=10000, timeout=20, switch=
 
     def body():
         try:
-            box["orch"] = orch = run_local_thread_dcop(algo_def, cg, dist, dcop, infinity, replication=replication)
+            box["orch"] = orch = run_local_thread_dcop(algo_def, cg, dist, dcop, infinity, replication=replication, delay=delay,
+                                                             collect_moment=collect_moment, period=period)
             try:
                 orch.deploy_computations()
                 orch.run(scenario=scenario, timeout=timeout)
